@@ -9,11 +9,18 @@ Definition la (s : string) : list ascii := list_ascii_of_string s.
    publishing (with their addresses) since T0, delays at most d *)
 Record view := { v_t0 : Z; v_items : list item; v_tau : Z; v_obs : option (list (N * N));
                  v_L : list (N * N); v_T0 : Z; v_d : Z }.
+(* as printed by the harness: the items are given once per node; a view names its node and how many
+   of that node's items had been processed when GetPeers was called *)
+Record qview := { q_node : nat; q_n : nat; q_tau : Z; q_obs : option (list (N * N));
+                  q_L : list (N * N); q_T0 : Z; q_d : Z }.
+Definition view_of (t0 : Z) (nodes : list (list item)) (q : qview) : view :=
+  {| v_t0 := t0; v_items := firstn (q_n q) (nth (q_node q) nodes []); v_tau := q_tau q; v_obs := q_obs q;
+     v_L := q_L q; v_T0 := q_T0 q; v_d := q_d q |}.
 
 Inductive case :=
 | CCodec (a : string) (addr id : string) (wire : string) (dec : option (string * string * string))
 | CDecode (wire : string) (dec : option (string * string * string))
-| CCluster (intervals : list Z) (views : list view).
+| CCluster (t0 : Z) (intervals : list Z) (nodes : list (list item)) (views : list qview).
 
 Definition ttl := peer_entry_timeout.
 (* Ready() adds a jitter below a fifth of the interval (Props/C18.v proves the divisor extracted from
@@ -81,7 +88,7 @@ Definition check (c : case) : codes :=
           | _ => [22%N]
           end
       end
-  | CCluster intervals views =>
+  | CCluster t0 intervals nodes views =>
       (if forallb (fun x => (refresh_interval <=? x) && (x <? imax)) intervals then [] else [12%N]) ++
-      flat_map check_view views
+      flat_map (fun q => check_view (view_of t0 nodes q)) views
   end.
